@@ -43,6 +43,8 @@ SPEC_KEYS = ['adminpass', 'admin_pass', 'password', 'admin_password', 'auth_toke
              'swifthashsuffix', 'migrationsshkey', 'cephmdskey', 'cephmonkey', 'chapsecret']
 
 KF_WILDCARD = 'KF_C04_WILDCARD'
+KF_FLAGVALUE = 'KF_C04_FLAGVALUE'
+KF_NESTED = 'KF_C04_NESTED'
 
 # rendering -> (pattern list, index) in the reviewed template order
 RENDERINGS = {
@@ -211,11 +213,11 @@ def gen_mask_text(rng, adversarial=False):
                        ''.join(rng.choice(dom) for _ in range(rng.randrange(0, 6)))])
 
 
-def render(rng, rendering, key, form, secret, wide=False):
+def render(rng, rendering, key, form, secret, wide=False, strict=False):
     """-> (head, value, tail): the rendering text is head+value+tail, the masked one head+mask+tail."""
     K = case_form(rng, key, form) + digits(rng, form)
     q = gen_quote
-    same = rng.random() < 0.85
+    same = strict or rng.random() < 0.85       # strict: opening and closing quotes / tags agree
     if rendering == 'eq_bare':
         return K + gen_ws(rng, 0) + '=' + gen_ws(rng, 0), secret, ''
     if rendering in ('eq_quoted', 'eq_dquoted', 'eq_squoted'):
@@ -277,7 +279,35 @@ def has_key(text, keys=None):
     return any(k in low for k in (keys or all_keys()))
 
 
-def gen_rendering_case(rng, key=None, rendering=None, form=None, nparts=None, allow_wildcard_class=False):
+SECRET_STYLES = ['alnum', 'meta', 'any', 'fold', 'spacey']
+FLAGLIKE = re.compile(r'--?[A-z]+', re.IGNORECASE)
+
+
+def in_flagvalue_class(rendering, key, secret):
+    """`--KEY2 -x next`: KEY2 ends with a sanitize key that comes earlier in the list and the value looks like a
+    flag, so the earlier key's `key --flag value` pattern masks the *next* word as well (finding KF_C04_FLAGVALUE)."""
+    if rendering != 'dashdash' or not FLAGLIKE.fullmatch(secret):
+        return False
+    keys = all_keys()
+    return any(k != key and key.endswith(k) for k in keys[:keys.index(key)]) if key in keys else False
+
+
+FOLD_NORM = {ord('K'): 'k', ord('ſ'): 's', ord('İ'): 'i', ord('ı'): 'i'}
+
+
+def contains_key_ci(text):
+    """Does a sanitize key occur in the text, comparing the way re.IGNORECASE does (finding KF_C04_NESTED:
+    a value that itself contains a sanitize key can be taken for a rendering of that key)."""
+    low = text.translate(FOLD_NORM).lower()
+    return any(k in low for k in all_keys())
+
+
+def listed_ids():
+    return {f.get('id') for f in common.load_findings().get('findings', []) if ID in f.get('properties', [])}
+
+
+def gen_rendering_case(rng, key=None, rendering=None, form=None, nparts=None, allow_wildcard_class=False,
+                       strict=False, allow_flagvalue_class=False, allow_nested_class=False):
     """A message built from neutral text and renderings, with the expected result by construction."""
     keys = all_keys()
     mask = gen_mask_text(rng)
@@ -293,8 +323,13 @@ def gen_rendering_case(rng, key=None, rendering=None, form=None, nparts=None, al
             # a colon rendering followed by a later quote is the listed WILDCARD finding: keep quotes out of the rest
             r = rng.choice(['eq_bare', 'dashdash', 'xml', 'cmd_flag'])
         cls = value_class(r)
-        sec = gen_secret(rng, cls, style=rng.choice(['alnum', 'meta', 'any', 'fold', 'spacey']))
-        head, val, tail = render(rng, r, k, f, sec)
+        sec = gen_secret(rng, cls, style=rng.choice(SECRET_STYLES))
+        if strict and allow_nested_class:
+            sec = gen_secret(rng, cls, style='keyish')
+        while strict and ((not allow_flagvalue_class and in_flagvalue_class(r, k, sec)) or
+                          (not allow_nested_class and contains_key_ci(sec))):
+            sec = gen_secret(rng, cls, style='alnum', maxlen=6)
+        head, val, tail = render(rng, r, k, f, sec, strict=strict)
         sep = '' if last else rng.choice([' ', ' ', '\n', ', ', '; ', ' and ', '\t'])
         if r in BARE and not last and not sep[0].isspace():
             sep = ' ' + sep
@@ -592,13 +627,13 @@ def gen_nokey(rng):
         x = rng.random()
         if x < 0.4:
             m = gen_malformed(rng)
-            # break every key occurrence
-            low = m.lower()
+            # break every key occurrence (bounded; whatever survives is filtered by has_key below)
             for k in all_keys():
-                while k in m.lower():
-                    i = m.lower().index(k)
-                    m = m[:i + 1] + m[i + 2:]
-            del low
+                for _ in range(20):
+                    hit = re.search(re.escape(k), m, re.IGNORECASE)
+                    if not hit:
+                        break
+                    m = m[:hit.start() + 1] + m[hit.start() + 2:]
         elif x < 0.7:
             m = ''.join(rng.choice(SOUP + WORDS + ['pass', 'word', 'tok', 'en', 'secre', 'key', 'ſecret', 'admin_'])
                         for _ in range(rng.randrange(1, 15)))
@@ -631,11 +666,14 @@ def search(ctx, seeds, full=False):
     fails = []
     kinds = set()
 
+    ids = listed_ids()
+    listed = KF_WILDCARD in ids
+
     def check(case):
         ctx.evaluations += 1
         why = oracle(case)
         if why:
-            k = why.split(':')[0]
+            k = known_class(case, ids) or why.split(':')[0]
             ctx.count('search/fail/' + k)
             if k in kinds and len(fails) >= 3:
                 return
@@ -653,13 +691,15 @@ def search(ctx, seeds, full=False):
     if not full and ctx.quick:
         grid = grid[:1200]
     for k, f, r in grid:
-        check(gen_rendering_case(rng, key=k, rendering=r, form=f, nparts=1))
+        check(gen_rendering_case(rng, key=k, rendering=r, form=f, nparts=1, strict=True))
         if len(fails) >= 5:
             return fails
     for i in range(n):
         x = rng.random()
         if x < 0.7:
-            check(gen_rendering_case(rng))
+            check(gen_rendering_case(rng, strict=True, allow_wildcard_class=listed and rng.random() < 0.1,
+                                     allow_flagvalue_class=KF_FLAGVALUE in ids and rng.random() < 0.1,
+                                     allow_nested_class=KF_NESTED in ids and rng.random() < 0.05))
         else:
             check(gen_nokey(rng))
         if len(fails) >= 5:
@@ -693,13 +733,16 @@ def minimise(case):
             kept = common.shrink_list(case['parts'], lambda ps: fails_same(variant(parts=ps)))
             case = variant(parts=kept)
     # shorter surroundings, secrets (a non-empty subsequence of a secret stays in the value class), separators
+    # (the whitespace that separates a bare value from what follows is part of the construction: kept)
     for field in ('pre', 'post'):
         if case[field]:
+            keep = case[field][:1] if field == 'post' else ''
             if fails_same(variant(**{field: ''})):
                 case = variant(**{field: ''})
             else:
-                small = common.shrink_list(list(case[field]), lambda cs: fails_same(variant(**{field: ''.join(cs)})))
-                case = variant(**{field: ''.join(small)})
+                small = common.shrink_list(list(case[field][len(keep):]),
+                                           lambda cs: fails_same(variant(**{field: keep + ''.join(cs)})))
+                case = variant(**{field: keep + ''.join(small)})
     for i in range(len(case['parts'])):
         def with_value(chars, i=i):
             ps = json.loads(json.dumps(case['parts']))
@@ -712,22 +755,39 @@ def minimise(case):
     return case
 
 
-def classify(ctx, failure, listed_findings):
-    ids = [f['id'] for f in listed_findings]
-    case = failure.case
-    if KF_WILDCARD in ids and case.get('kind') == 'render':
-        mask = case.get('mask', '***')
-        if without_wildcard(case['message'], mask) == case['expected'] and \
-                strutils().mask_password(case['message'], mask) != case['expected']:
-            return KF_WILDCARD
+def in_wildcard_class(case):
+    """The listed class: the code without its WILDCARD step gives exactly the expected string."""
+    if case.get('kind') != 'render':
+        return False
+    mask = case.get('mask', '***')
+    try:
+        return without_wildcard(case['message'], mask) == case['expected'] and \
+            strutils().mask_password(case['message'], mask) != case['expected']
+    except Exception:
+        return False
+
+
+def known_class(case, ids):
+    """The listed finding class a failing rendering case falls into, if any."""
+    if case.get('kind') != 'render' or 'parts' not in case:
+        return None
+    if KF_NESTED in ids and any(contains_key_ci(p['value']) for p in case['parts']):
+        return KF_NESTED
+    if KF_FLAGVALUE in ids and any(in_flagvalue_class(p['rendering'], p['key'], p['value']) for p in case['parts']):
+        return KF_FLAGVALUE
+    if KF_WILDCARD in ids and in_wildcard_class(case):
+        return KF_WILDCARD
     return None
 
 
+def classify(ctx, failure, listed_findings):
+    return known_class(failure.case, {f['id'] for f in listed_findings})
+
+
 def witness_reproduces(ctx, finding):
-    if finding.get('id') == KF_WILDCARD:
-        w = finding.get('witness', {})
-        msg = w.get('message', '{"password": "abc", "user": "bob"}')
-        return strutils().mask_password(msg) != w.get('expected', '{"password": "***", "user": "bob"}')
+    w = finding.get('witness', {})
+    if finding.get('id') in (KF_WILDCARD, KF_FLAGVALUE, KF_NESTED) and 'message' in w and 'expected' in w:
+        return strutils().mask_password(w['message'], w.get('mask', '***')) != w['expected']
     return False
 
 
